@@ -149,6 +149,15 @@ add('C14', "spec/AsJson.tla: the depth-first walk of asjson (containers on the c
     "Trusted: TLC, projections. Shared (acyclic) references may be expanded rather than referenced: the claim checked is termination, dumpability and cycle cutting.",
     "TLA+ spec AsJson (exhaustive object graphs) + PegSem as oracle of the original grammar + serialisation round-trip replay", "5 C14, 3.7")
 
+add('C15', "Four ways from a grammar text to a grammar model - the checked-in generated parser behind tatsu.compile, the parser compiled from "
+    "tatsu/_tatsu.ebnf, a parser regenerated from that file, and the checked-in GRAMMAR_MODEL - are run on the full-language corpus, a syntax-variant "
+    "corpus written to cover every production and option of the TatSu grammar (incl. deprecated forms), seeded random core grammars and their "
+    "character-level mutants; they must make the same accept/reject decision and build equal models (from_model). Differential validation of three "
+    "derived parsers against the grammar file; no TLA+ model of the TatSu grammar is evaluated here yet (DESIGN 5 C15 / 8).",
+    "Trusted: the projection from_model; the corpus construction for production coverage (not measured on a specification).",
+    "differential execution of the bootstrap parser, the compiled grammar file, a regenerated parser and the shipped model (translation validation)",
+    "5 C15, 8", level='translation_validation')
+
 import sys
 checks = [C[p] for p in props if p in C]
 na = [{"property_id": p, "reason": "check not built yet in this round (build in progress; DESIGN.md section 10 gives the order)"} for p in props if p not in C]
